@@ -3,6 +3,9 @@ import JominiModel.Spec.Writer
 import JominiModel.Proofs.Writer
 import JominiModel.Spec.WriterFlat
 import JominiModel.Proofs.WriterFlat
+import JominiModel.Proofs.WriterTape
+import JominiModel.Proofs.TextTapeFaithful3
+import JominiModel.Proofs.WriterArraysTape
 /-
 C14 — Writing a parsed tape and re-parsing reproduces the same structure; writing is idempotent.
 Only property theorems live here; helper lemmas are in `Proofs/Writer.lean`.
@@ -131,9 +134,98 @@ example : ∃ T₀ s T, TextTape.parse (TextTape.renderFlat TextTape.exampleFlat
     T.map TextTape.Tok.erase = T₀.map TextTape.Tok.erase :=
   C14_roundtrip_flat _ _ 9 3 TextTape.exampleFlat_valid.1 TextTape.exampleFlat_valid.2 (by decide +kernel)
 
+/-- what `write_tape` writes for the tape of a document of nested objects (scalar leaves, any
+operators, any depth), under every indent byte and factor: exactly the calls of the document, hence
+exactly `textRoot` -/
+theorem C14_write_nested (fs : NFields) (hcanon : CanonF fs) (c : UInt8) (f : Nat) :
+    ∃ s, writeTape ((etoksF 0 fs).map ofTT) (State.init c f) = .ok s ∧ s.out = textRoot c f fs :=
+  ⟨_, writeTape_nested fs hcanon c f, lexemes_nested fs c f⟩
+
+/-- `C14_roundtrip` for nested objects, end to end through the two models: take a document of
+fields whose values are scalars or non-empty objects nested to any depth (`fs`, in the canonical
+form a tape gives rise to: no explicit `=` operator), under ANY valid layout `jfs` of the text-tape
+slice's fragment 3 (arbitrary blanks and comments in every gap, optional `=` before `{`, ghost
+`{}`); parse it, write the tape under any indent factor and any indent byte the parser treats as
+blank, parse what was written: the second tape equals the first modulo the positions of the
+scalars — same keys, operators, scalar bytes, quotedness, `Object{end}` / `End` links.
+`hvalid`: the document's scalars are scalars of the format (they are, in any valid layout);
+`hb'`: the written text does not begin with the three BOM bytes (known finding `roundtrip-bom-key`). -/
+theorem C14_roundtrip_nested (jfs : TextTape.JFields) (gt : Bytes) (fs : NFields) (c : UInt8) (f : Nat)
+    (hc : TextTape.isBlank c = true) (hgt : TextTape.Blank gt) (hv : TextTape.JValidF jfs gt)
+    (hb : TextTape.hasBom (TextTape.jrenderF jfs ++ gt) = false)
+    (hcontent : TextTape.kcontentF jfs = kOfF fs) (hcanon : CanonF fs) (hvalid : Writer.Spec.ValidF fs)
+    (hb' : TextTape.hasBom (textRoot c f fs) = false) :
+    ∃ T₀ s T, TextTape.parse (TextTape.jrenderF jfs ++ gt) = .ok T₀ false ∧
+      writeTape (T₀.map ofTT) (State.init c f) = .ok s ∧
+      TextTape.parse s.out = .ok T false ∧
+      T.map TextTape.Tok.erase = T₀.map TextTape.Tok.erase := by
+  obtain ⟨T₀, hp0, he0⟩ := TextTape.faithful_tree jfs gt hgt hv hb
+  have hT0 : T₀.map TextTape.Tok.erase = etoksF 0 fs := by rw [he0, hcontent, etoksF_eq]
+  have htape : T₀.map ofTT = (etoksF 0 fs).map ofTT := by rw [← map_ofTT_erase, hT0]
+  obtain ⟨s, hw, hout⟩ := C14_write_nested fs hcanon c f
+  obtain ⟨T, hp, he⟩ := WriterParse.parse_textRoot c f hc fs hvalid hb'
+  exact ⟨T₀, s, T, hp0, by rw [htape]; exact hw, by rw [hout]; exact hp, by rw [he, hT0]⟩
+
+/-- `a={b=c}` + newline, written with space × 3: the hypotheses are satisfiable -/
+example : ∃ T₀ s T, TextTape.parse (TextTape.jrenderF
+      (.cons [] ⟨false, [97]⟩ [] .eq (.obj [] [] ⟨false, [98]⟩ [] .eq (.scal [] ⟨false, [99]⟩) .nil []) .nil) ++ [10])
+        = .ok T₀ false ∧
+    writeTape (T₀.map ofTT) (State.init 32 3) = .ok s ∧ TextTape.parse s.out = .ok T false ∧
+    T.map TextTape.Tok.erase = T₀.map TextTape.Tok.erase := by
+  have va : (⟨false, [97]⟩ : TextTape.Scal).Valid := valid_of_safe _ (by simp) (by decide +kernel)
+  have vb : (⟨false, [98]⟩ : TextTape.Scal).Valid := valid_of_safe _ (by simp) (by decide +kernel)
+  have vc : (⟨false, [99]⟩ : TextTape.Scal).Valid := valid_of_safe _ (by simp) (by decide +kernel)
+  refine C14_roundtrip_nested _ [10]
+    (.cons (.raw ⟨false, [97]⟩) none (.obj (.raw ⟨false, [98]⟩) none (.scal (.raw ⟨false, [99]⟩)) .nil) .nil)
+    32 3 (by decide +kernel) blank_nl ?_ (by decide +kernel) rfl ?_ ?_ (by decide +kernel)
+  · refine ⟨.nil, .nil, va, fun _ => .inr ⟨61, [], rfl, TextTape.bnd_eq⟩, ?_, trivial⟩
+    refine ⟨.nil, .nil, .nil, .nil, vb, fun _ => .inr ⟨61, [], rfl, TextTape.bnd_eq⟩, ?_, trivial⟩
+    exact ⟨.nil, vc, fun _ => .inr ⟨125, _, rfl, TextTape.bnd_close⟩⟩
+  · simp [CanonF, CanonV]
+  · exact ⟨va, ⟨vb, vc, trivial⟩, trivial⟩
+
+/-- `C14_roundtrip` for root-level arrays of scalars and empty containers: a document of fields
+whose values are scalars, non-empty arrays of scalars or empty containers (`fs`, in the form a tape
+gives rise to), under ANY valid fragment-3 layout `jfs`; parse, write under any indent factor and
+blank indent byte, parse again: same tape modulo positions (keys, operators, scalars,
+`Array{end}` / `End` links).  `write_tape` writes an empty container as `{ }` and an array with
+its elements on one indented line. -/
+theorem C14_roundtrip_arrays (jfs : TextTape.JFields) (gt : Bytes) (fs : List AField) (c : UInt8) (f : Nat)
+    (hc : TextTape.isBlank c = true) (hgt : TextTape.Blank gt) (hv : TextTape.JValidF jfs gt)
+    (hb : TextTape.hasBom (TextTape.jrenderF jfs ++ gt) = false)
+    (hcontent : TextTape.kcontentF jfs = acontent fs) (hcanon : ∀ x ∈ fs, x.Canon)
+    (hvalid : ∀ x ∈ fs, x.key.Valid ∧ x.val.Valid)
+    (hb' : TextTape.hasBom (atext c f fs true) = false) :
+    ∃ T₀ s T, TextTape.parse (TextTape.jrenderF jfs ++ gt) = .ok T₀ false ∧
+      writeTape (T₀.map ofTT) (State.init c f) = .ok s ∧
+      TextTape.parse s.out = .ok T false ∧
+      T.map TextTape.Tok.erase = T₀.map TextTape.Tok.erase := by
+  obtain ⟨T₀, hp0, he0⟩ := TextTape.faithful_tree jfs gt hgt hv hb
+  have htape : T₀.map ofTT = wtAF 0 fs := by rw [← map_ofTT_erase, he0, hcontent, wtAF_eq]
+  have hw := writeTape_arrays fs hcanon c f
+  have hout := lexemes_arrays fs c f
+  have hvj : TextTape.JValidF (WriterParse.alayout c f fs true) [] := by
+    apply WriterParse.valid_alayout c f hc fs true
+    intro x hx
+    obtain ⟨hk, hval⟩ := hvalid x hx
+    refine ⟨scall_valid _ hk, ?_, ?_⟩
+    · intro s hs; rw [hs] at hval; exact scall_valid _ hval
+    · intro u a rest hs
+      rw [hs] at hval
+      exact ⟨scall_valid _ hval.1, fun e he => scall_valid _ (hval.2 e he)⟩
+  have hr := WriterParse.jrenderF_alayout c f fs true
+  obtain ⟨T, hp, he⟩ := TextTape.faithful_tree (WriterParse.alayout c f fs true) [] .nil hvj
+    (by rw [List.append_nil, hr]; exact hb')
+  simp only [List.append_nil] at hp
+  rw [hr] at hp
+  rw [WriterParse.kcontentF_alayout] at he
+  exact ⟨T₀, _, T, hp0, by rw [htape]; exact hw, by rw [hout]; exact hp, by rw [he, he0, hcontent]⟩
+
 /-
-Growth theorem, NOT proved beyond flat documents (full statement kept; `C14_roundtrip_flat` is its
-flat instance):
+Growth theorem, NOT proved beyond flat documents and nested objects (full statement kept;
+`C14_roundtrip_flat`, `C14_roundtrip_nested` and `C14_roundtrip_arrays` are its instances; arrays
+inside containers and arrays of containers, headers, parameter blocks and mixed containers are decided
+by the L3 oracle on the real code):
 
   theorem C14_roundtrip (doc : Doc) (h : RoundTrippable doc) (layout : Layout) (c : UInt8) (f : Nat)
       (hc : c = 32 ∨ c = 9) (hf : f ≤ 9) :
